@@ -341,8 +341,7 @@ let get_timeout st ts =
     then ({ _prev = (Some ts); _delta = st._delta }, (Some st._delta))
     else if Z.ltb elapsed st._delta
          then ({ _prev = (Some (Z.add prev0 st._delta)); _delta =
-                st._delta }, (Some
-                (Z.sub (Z.sub st._delta elapsed) (Zpos XH))))
+                st._delta }, (Some (Z.sub st._delta elapsed)))
          else ({ _prev = (Some
                 (Z.add prev0 (Z.mul st._delta (Z.div elapsed st._delta))));
                 _delta = st._delta }, None)
